@@ -169,7 +169,9 @@ const SAFE: i128 = 1i128 << 53;
 fn arith(v: &Option<V>) -> Result<Option<f64>, Taint> {
     match v {
         Some(V::Num(Num::Int(i))) => {
-            if i.abs() > SAFE {
+            // beyond 2^53 only integers that a double holds exactly (e.g. -2^63): the operation is then the correctly
+            // rounded one on exact operands, and numv() below leaves results of large magnitude open anyway
+            if i.abs() > SAFE && ((*i as f64) as i128 != *i || i.abs() > (1i128 << 63)) {
                 taint("integer beyond 2^53 in arithmetic")
             } else {
                 Ok(Some(*i as f64))
